@@ -52,7 +52,7 @@ def verify(sid: str, run_tests=True):
         else:
             rc, out = sh([PY, demo], cwd=tmp, env=env, timeout=600)
             res["demo_with_patch"] = "fails (as intended)" if rc != 0 else "PASSES (not a demonstration)"
-            if run_tests:
+            if run_tests and not os.environ.get('SV_NO_TESTS'):
                 rc, out = sh([PY, "-m", "pytest", "-q", "-p", "no:cacheprovider", "--timeout=900", "-x", "-q"], cwd=tmp, env=env, timeout=1800)
                 import re as _re
                 tail = [l for l in out.strip().splitlines() if _re.search(r"\d+ (passed|failed|error)", l)]
@@ -69,6 +69,8 @@ def verify(sid: str, run_tests=True):
             res["checks_reporting"] = caught
     finally:
         shutil.rmtree(tmp, ignore_errors=True)
+    if os.environ.get('SV_NO_TESTS') and "confirmed" in meta and "tests_with_patch" in meta["confirmed"]:
+        res["tests_with_patch"] = meta["confirmed"]["tests_with_patch"]
     meta["confirmed"] = res
     json.dump(meta, open(meta_p, "w"), indent=1)
     return sid, res
